@@ -6,12 +6,16 @@ LEVEL_TEXT = ("Mixed.  Proved on symbolic nodes (real code, all shapes and value
               "table lookup, reverse_ite_cases yields exclusive, exhaustive conditions each implying ast == value (If nesting <= 2), BV.chop pieces "
               "concatenate to the value, BV.get_bytes/get_byte are the documented big-endian byte slices.  Proved per shape but bounded over shapes "
               "(real code on real expressions, z3 equivalence for all assignments): replace, replace_dict, canonicalize (injective renaming, "
-              "equivalent after renaming back), excavate_ite, burrow_ite, identical.  The explicit-stack traversals have no loop invariant in reach.")
+              "equivalent after renaming back), excavate_ite, burrow_ite, identical.  The explicit-stack traversals have no loop invariant in reach; "
+              "for excavate_ite and burrow_ite the per-node step is validated for EVERY combination of operand kinds (leaf, If on the first "
+              "condition, on its negation, on another condition, an operand whose If surfaces through the recursion; for burrow_ite every "
+              "choice of equal / different operands of the two branches) per operation up to arity 3 (4 thorough): the real output is proved "
+              "equivalent to the input by z3.")
 EXPLANATION = LEVEL_TEXT
 TECHNIQUE = "pyvc proofs of the list/slice/ITE utilities on symbolic nodes + per-shape z3 equivalence of the traversals on generated expressions"
 RULE = "bounded part: random operation trees (depth<=3) with random sub-expression replacements; distinct = distinct expressions"
 U = "vf.contracts.utils"
-FUNCTIONS = ["ast.bool.ite_cases", "ast.bool.ite_dict", "ast.bool.reverse_ite_cases", "ast.bv.BV.chop", "ast.bv.BV.get_bytes", "ast.bv.BV.get_byte"]
+FUNCTIONS = ["algorithm.ite_relocation._excavate_ite (per-node step)", "algorithm.ite_relocation._burrow_ite (per-node step)", "ast.bool.ite_cases", "ast.bool.ite_dict", "ast.bool.reverse_ite_cases", "ast.bv.BV.chop", "ast.bv.BV.get_bytes", "ast.bv.BV.get_byte"]
 TRUSTED = ["z3", "contracts of the public constructors (C01)", "claripy's Z3 translation for the per-shape equivalences (C09 round trip)"]
 ASSUMPTIONS = ["ite_dict keys lie within the index width (the split uses the unsigned <=)", "case lists of length <= 3, tables of up to 8 keys, If nesting <= 2"]
 
@@ -35,5 +39,20 @@ def tasks(tier, seed=0):
     out += [task(U, "ob_reverse_ite_cases", f"utils.reverse_ite_cases/partition@w{w}", ["C08"], w=w, tier=tier) for w in (1, 8)]
     out += [task(U, "ob_chop", f"utils.BV.chop/concat@w{w}", ["C08"], w=w, tier=tier) for w in (8, 16, 24)]
     out += [task(U, "ob_get_bytes", f"utils.BV.get_bytes/slice@w{w}", ["C08"], w=w, tier=tier) for w in (8, 20, 24, 32)]
+    out += ite_step_tasks(tier, ["C08"], burrow=True)
     out += shape_tasks(tier, seed)
+    return out
+
+
+def ite_step_tasks(tier, props, burrow=False):
+    """excavate_ite / burrow_ite: every combination of operand kinds for one level of the traversal, per operation (translation validation
+    of the real output, complete up to the stated arity)"""
+    from vf.contracts import itestep
+    I = "vf.contracts.itestep"
+    amax = 3 if tier == "quick" else 4
+    out = [task(I, "ob_step", f"ite.excavate-step/{op}", props, replay=I + ":replay", op=op, amax=amax, tier=tier,
+                budget_s=150 if tier == "quick" else 1500) for op in itestep.OPS]
+    if burrow:
+        out += [task(I, "ob_burrow", f"ite.burrow-step/{op}", props, op=op, amax=amax, tier=tier, budget_s=150 if tier == "quick" else 1500)
+                for op in list(itestep.BV_OPS) + ["Concat", "And", "Or"] + list(itestep.BIN_ONLY)]
     return out
